@@ -19,6 +19,15 @@ fn dep_inner(a: u64, b: u64) -> u64 {
 pub extern "C" fn dep_mul(a: u64, b: u64) -> u64 {
     dep_inner(a, b)
 }
+#[inline(never)]
+fn twin(a: u64, b: u64) -> u64 {
+    let t = a + b;
+    t + 11
+}
+#[no_mangle]
+pub extern "C" fn dep_twin(a: u64, b: u64) -> u64 {
+    twin(a, b)
+}
 "#;
 
 const PLUG: &str = r#"#[inline(never)]
@@ -29,6 +38,15 @@ fn plug_inner(a: u64, b: u64) -> u64 {
 #[no_mangle]
 pub extern "C" fn plug_add(a: u64, b: u64) -> u64 {
     plug_inner(a, b)
+}
+#[inline(never)]
+fn twin(a: u64, b: u64) -> u64 {
+    let t = a + b;
+    t + 22
+}
+#[no_mangle]
+pub extern "C" fn plug_twin(a: u64, b: u64) -> u64 {
+    twin(a, b)
 }
 "#;
 
@@ -46,6 +64,7 @@ pub extern "C" fn plugb_add(a: u64, b: u64) -> u64 {
 const HOST: &str = r#"use std::ffi::{c_char, c_int, c_void, CString};
 extern "C" {
     fn dep_mul(a: u64, b: u64) -> u64;
+    fn dep_twin(a: u64, b: u64) -> u64;
     fn dlopen(filename: *const c_char, flag: c_int) -> *mut c_void;
     fn dlsym(handle: *mut c_void, symbol: *const c_char) -> *mut c_void;
     fn dlclose(handle: *mut c_void) -> c_int;
@@ -72,6 +91,11 @@ fn before_load(x: u64) -> u64 {
 fn after_reload(x: u64) -> u64 {
     x + 2
 }
+#[inline(never)]
+fn twin(a: u64, b: u64) -> u64 {
+    let t = a + b;
+    t + 33
+}
 fn main() {
     let dir = std::env::args().nth(1).unwrap();
     let path = CString::new(format!("{dir}/libplug.so")).unwrap();
@@ -87,14 +111,18 @@ fn main() {
     let h2 = open(&path);
     let x = after_reload(x);
     let z = call(h2, "plug_add", 1, 2);
+    // the same function name in three objects
+    let t3 = call(h2, "plug_twin", 3, 0);
+    let t1 = twin(1, 0);
+    let t2 = unsafe { dep_twin(2, 0) };
     unsafe { dlclose(h2) };
     unsafe { dlclose(hb) };
     let w = unsafe { dep_mul(2, 3) };
-    println!("{x} {y} {v} {z} {w}");
+    println!("{x} {y} {v} {z} {w} {t1} {t2} {t3}");
 }
 "#;
 
-fn build() -> Result<String, String> {
+pub fn build() -> Result<String, String> {
     let dir = crate::common::build_dir().join("shlib");
     std::fs::create_dir_all(&dir).map_err(|e| e.to_string())?;
     let d = dir.display().to_string();
@@ -121,9 +149,8 @@ fn build() -> Result<String, String> {
 }
 
 fn sym_offset(lib: &str, name: &str) -> Option<u64> {
-    let info = crate::reftrace::elf_info(lib).ok()?;
-    // symbols carry the PIE base of executables; for a shared object the file address is wanted
-    info.symbols.iter().find(|(s, _, _)| s.contains(name)).map(|(_, a, _)| a - info.base)
+    // the file address (offset from the mapping base of a shared object / PIE executable)
+    crate::reftrace::text_symbol(lib, |s| s.contains(name))
 }
 
 pub fn part_shlib(tier: Tier) -> Part {
@@ -244,7 +271,7 @@ pub fn part_shlib(tier: Tier) -> Part {
                     }
                 }
                 (None, _) => part.violate("C18:shlib:library-not-in-maps-at-its-stop", format!("[{}] {lib} is not mapped at the stop in {f}", h.name), replay.clone()),
-                _ => {}
+                (_, None) => part.violate("MACHINERY:shlib-no-symbol", format!("[{}] no symbol for {f} in {lib}", h.name), replay.clone()),
             }
             // sharedlib info = mapped objects
             let listed: std::collections::BTreeSet<String> = libs["libs"].as_array().map(|l| l.iter().filter_map(|x| x["path"].as_str().map(|s| s.to_string())).collect()).unwrap_or_default();
@@ -282,5 +309,116 @@ pub fn part_shlib(tier: Tier) -> Part {
         }
     }
     part.bounds = json!({"histories": hs.len(), "calls": 4, "libraries": ["startup dependency", "dlopen, dlclose, dlopen again"]});
+    part
+}
+
+/// C17 across objects: the same function name defined in the executable, in a library linked at
+/// startup and in a dlopen'ed plugin.  At a stop where all three are loaded a name template must
+/// select exactly the instances whose path ends with it.
+pub fn part_names_across_objects(_tier: Tier) -> Part {
+    let mut part = Part::new("c17_shared_objects");
+    part.rule = "host executable, a cdylib linked at startup and a dlopen'ed cdylib each define `twin` (paths host::twin, dep::twin, plug::twin), called in the order plug, host, dep after a stop in main at which all three objects are loaded; for each template in {twin, host::twin, dep::twin, plug::twin, ost::twin, p::twin, lug::twin, twi, twinn} (one session each) set_breakpoint_at_fn at that stop must return one location per selected instance, each inside the mapping of its object at the ELF offset of that function, a template that is no component suffix must select nothing, and continuing must stop at exactly the calls of the selected instances, in program order, with the arguments passed".into();
+    let dir = match build() {
+        Ok(d) => d,
+        Err(e) => {
+            part.violate("MACHINERY:shlib-build", e, json!(null));
+            return part;
+        }
+    };
+    let host = format!("{dir}/host");
+    let after_reload_line = HOST.lines().position(|l| l.contains("let x = after_reload(x)")).map(|i| i as u64 + 1).unwrap_or(0);
+    // (object, crate path, arguments) in call order
+    let calls: [(&str, &str, u64); 3] = [("libplug.so", "plug::twin", 3), ("host", "host::twin", 1), ("libdep.so", "dep::twin", 2)];
+    let templates: [(&str, &[&str]); 9] = [
+        ("twin", &["plug::twin", "host::twin", "dep::twin"]),
+        ("host::twin", &["host::twin"]),
+        ("dep::twin", &["dep::twin"]),
+        ("plug::twin", &["plug::twin"]),
+        ("ost::twin", &[]),
+        ("p::twin", &[]),
+        ("lug::twin", &[]),
+        ("twi", &[]),
+        ("twinn", &[]),
+    ];
+    for (tpl, selected) in templates {
+        let script = vec![
+            json!({"op": "break_line", "file": "host.rs", "line": after_reload_line}),
+            json!({"op": "start"}),
+            json!({"op": "sharedlibs"}),
+            json!({"op": "break_fn", "name": tpl}),
+            json!({"op": "continue"}),
+            json!({"op": "values", "names": [], "derefs": []}),
+            json!({"op": "continue"}),
+            json!({"op": "values", "names": [], "derefs": []}),
+            json!({"op": "continue"}),
+            json!({"op": "values", "names": [], "derefs": []}),
+            json!({"op": "continue"}),
+        ];
+        let run = crate::mt::session_init(
+            json!({"exe": host, "args": [dir]}),
+            |obs| {
+                if obs.last().map(|o| o["res"]["kind"] == "exit").unwrap_or(false) {
+                    return None;
+                }
+                script.get(obs.len()).cloned()
+            },
+            Duration::from_secs(60),
+            script.len(),
+        );
+        part.evaluations += 1;
+        part.states += run.obs.len() as u64;
+        part.transitions += run.obs.len() as u64;
+        part.traces_validated += 1;
+        let replay = json!({"engine": "mt", "exe": host, "init": {"args": [dir]}, "commands": script});
+        if run.hang_at.is_some() || run.crashed.is_some() || run.obs.len() < 5 {
+            part.violate("C17:objects:session-broke", format!("[{tpl}] hang {:?} crash {:?}", run.hang_at, run.crashed), replay);
+            continue;
+        }
+        // locations returned for the template
+        let maps = run.obs[2]["res"]["maps"].as_array().cloned().unwrap_or_default();
+        let views: Vec<u64> = run.obs[3]["res"]["views"].as_array().map(|v| v.iter().filter_map(|x| x["addr"].as_u64()).collect()).unwrap_or_default();
+        let mut want_addrs: Vec<(String, u64)> = vec![];
+        for (obj, path, _) in calls.iter().filter(|c| selected.contains(&c.1)) {
+            let file = format!("{dir}/{obj}");
+            let base = maps.iter().find(|m| m["path"].as_str().map(|p| p.ends_with(obj)).unwrap_or(false)).and_then(|m| m["from"].as_u64());
+            let off = crate::reftrace::text_symbol(&file, |s| s.contains("4twin"));
+            match (base, off) {
+                (Some(b), Some(o)) => want_addrs.push((path.to_string(), b + o)),
+                _ => part.violate("MACHINERY:c17-objects-no-symbol", format!("[{tpl}] {obj}: base {base:?} offset {off:?}"), replay.clone()),
+            }
+        }
+        for (path, a) in &want_addrs {
+            if !views.iter().any(|v| *v >= *a && *v <= *a + 64) {
+                part.violate("C17:objects:selected-instance-got-no-location", format!("[{tpl}] `{path}` lies at {a:#x}; locations returned {views:x?}"), replay.clone());
+            }
+        }
+        if views.len() != want_addrs.len() {
+            part.violate("C17:objects:number-of-locations-differs", format!("[{tpl}] {} locations {views:x?}, the template denotes {:?}", views.len(), selected), replay.clone());
+        }
+        // stops: exactly the calls of the selected instances, in order
+        let want: Vec<(String, u64)> = calls.iter().filter(|c| selected.contains(&c.1)).map(|c| (c.1.to_string(), c.2)).collect();
+        let mut got: Vec<(String, u64)> = vec![];
+        for (i, o) in run.obs.iter().enumerate().skip(4) {
+            if o["cmd"]["op"] == "continue" && o["res"]["kind"] == "breakpoint" {
+                // the stop event names the function without its crate: the object is told by the pc
+                let pc = o["res"]["pc"].as_u64().unwrap_or(0);
+                let short = o["events"].as_array().and_then(|e| e.iter().find(|e| e["ev"] == "breakpoint")).and_then(|e| e["fn"].as_str()).unwrap_or("?").to_string();
+                let obj = maps.iter().find(|m| m["from"].as_u64().unwrap_or(u64::MAX) <= pc && pc < m["to"].as_u64().unwrap_or(0)).and_then(|m| m["path"].as_str()).unwrap_or("?");
+                let krate = if obj.ends_with("libplug.so") { "plug" } else if obj.ends_with("libdep.so") { "dep" } else if obj.ends_with("/host") { "host" } else { "?" };
+                let f = format!("{krate}::{short}");
+                let a = run.obs.get(i + 1).and_then(|v| v["res"]["frames"][0]["args"]["Ok"].as_array().cloned()).unwrap_or_default().iter().find(|a| a["name"] == "a").and_then(|a| a["v"]["v"].as_str().and_then(|s| s.parse::<u64>().ok())).unwrap_or(u64::MAX);
+                got.push((f, a));
+            }
+        }
+        part.sample(json!({"template": tpl, "locations": views.len(), "stops": got}));
+        if got != want {
+            part.violate("C17:objects:stops-differ-from-the-selected-instances", format!("[{tpl}] stops (function, first argument) {got:?}, the template denotes {want:?}"), replay.clone());
+        }
+        if !run.obs.iter().any(|o| o["res"]["kind"] == "exit") {
+            part.violate("C17:objects:program-did-not-finish", format!("[{tpl}] {:?}", run.obs.last().map(|o| o["res"].clone())), replay.clone());
+        }
+        part.distinct_nontrivial += 1;
+    }
+    part.bounds = json!({"templates": templates.len(), "objects": 3});
     part
 }
